@@ -194,7 +194,7 @@ def tarr(case, rows):
     return a
 
 
-def build_model(case):
+def build_model(case, scratch=None):
     kind, metric = case["kind"], case["metric"]
     X, Y = tarr(case, case["X"]), iarr(case["Y"])
     n = len(case["X"])
@@ -229,8 +229,30 @@ def build_model(case):
             for i in range(N):
                 for j in range(N):
                     M[i, j] = fn(np.array(D[i], dtype=np.float64), np.array(D[j], dtype=np.float64))
-        m.pre_computed_distance = True
-        m.pre_distances = M
+        if scratch is not None and case.get("pre_from_file"):
+            # the matrix reaches the model through a distance file named at construction; with
+            # "replace" the caller then installs another matrix through the public setter
+            import os as _os
+
+            path = _os.path.join(scratch, "model_distances.txt")
+            if case["pre_from_file"] == "replace":
+                np.savetxt(path, M[::-1, ::-1].copy() + 1.0, delimiter=" ")
+            else:
+                np.savetxt(path, M, delimiter=" ")
+            kw = dict(distance=metric, pre_computed_distance=path)
+            if kind == "supervised":
+                m = B.supervised_mod.SupervisedOPF(**kw)
+            elif kind == "semi":
+                m = B.semi_mod.SemiSupervisedOPF(**kw)
+            elif kind == "knn":
+                m = B.knn_mod.KNNSupervisedOPF(max_k=m.max_k, **kw)
+            else:
+                m = B.unsup_mod.UnsupervisedOPF(min_k=m.min_k, max_k=m.max_k, **kw)
+            if case["pre_from_file"] == "replace":
+                m.pre_distances = M
+        else:
+            m.pre_computed_distance = True
+            m.pre_distances = M
         I = iarr(list(range(n)))
     if not case["pre"] and case.get("train_ids") and kind in ("supervised", "unsup", "unsup_prop"):
         I = iarr(case["train_ids"][:n])
